@@ -253,4 +253,179 @@ theorem parseHostPattern_nonwild {ext : Ext} {str value rest : Bytes} {kind : Ki
   | nonLoopbackIP => simp [peekKind] at hpk; split at hpk <;> cases hpk
   | loopbackIP => simp [peekKind] at hpk; split at hpk <;> cases hpk
 
+theorem idnaOK_nonempty {ext : Ext} {h : Bytes} (hi : idnaOK ext h = true) : h ≠ [] := by
+  intro hn
+  subst hn
+  simp [idnaOK, hasXnLabel, Bytes.splitOn, Bytes.hasPrefix, xnDash, plainIdnaOK] at hi
+
+theorem ipVerdict_nonempty {ext : Ext} {h : Bytes} {lb : Bool} (hi : ipVerdict ext h = .ok lb) : h ≠ [] := by
+  intro hn
+  subst hn
+  simp [ipVerdict, firstIPMark] at hi
+
+theorem hasPrefix_star_dot {str : Bytes} (h : str.hasPrefix Facts.origins_peekKind_wildcardSeq = true) :
+    ∃ tl, str = 42 :: 46 :: tl := by
+  cases str with
+  | nil => simp [Bytes.hasPrefix, Facts.origins_peekKind_wildcardSeq] at h
+  | cons a t =>
+    cases t with
+    | nil => simp [Bytes.hasPrefix, Facts.origins_peekKind_wildcardSeq] at h
+    | cons c tl =>
+      simp only [Bytes.hasPrefix, Facts.origins_peekKind_wildcardSeq, Bool.and_true, Bool.and_eq_true, beq_iff_eq] at h
+      exact ⟨tl, by rw [h.1, h.2]⟩
+
+/-- Shape of every accepted host pattern: the value is never empty; a subdomain pattern is
+`*.` followed by a non-empty base that is not longer than `maxHostLen - 2`. -/
+theorem parseHostPattern_shape {ext : Ext} {str value rest : Bytes} {kind : Kind}
+    (h : parseHostPattern ext str = .ok (value, kind, rest)) :
+    value ≠ [] ∧ (kind = .subdomains → ∃ base, value = 42 :: 46 :: base ∧ base ≠ [] ∧ base.length ≤ Facts.origins_maxHostLen - 2) := by
+  by_cases hk : kind = .subdomains
+  · subst hk
+    unfold parseHostPattern at h
+    simp only [] at h
+    cases hpk : peekKind str with
+    | subdomains =>
+      simp only [hpk] at h
+      have hpre : str.hasPrefix Facts.origins_peekKind_wildcardSeq = true := by
+        unfold peekKind at hpk
+        split at hpk
+        · assumption
+        · cases hpk
+      obtain ⟨tl, rfl⟩ := hasPrefix_star_dot hpre
+      have hho : hostOnly (42 :: 46 :: tl) Kind.subdomains = tl := by
+        simp [hostOnly, Facts.origins_subdomainWildcard]
+      rw [hho] at h
+      cases hf : Lex.fastParseHost tl with
+      | none => simp [hf] at h
+      | some hr =>
+        obtain ⟨host, r⟩ := hr
+        simp only [hf] at h
+        split at h
+        · cases h
+        · rename_i hlen
+          split at h
+          · cases h
+          · rename_i hnip
+            have hip : host.assumeIP = false := by simpa using hnip
+            simp only [hip, Bool.false_eq_true, if_false] at h
+            split at h
+            · cases h
+            · rename_i hid
+              simp only [Except.ok.injEq, Prod.mk.injEq] at h
+              obtain ⟨rfl, _, rfl⟩ := h
+              have happ := fastParseHost_append hf (Or.inl hip)
+              have hne := idnaOK_nonempty (by simpa using hid)
+              refine ⟨by simp [Facts.origins_subdomainWildcard], fun _ => ⟨host.value, ?_, hne, ?_⟩⟩
+              · simp only [beq_self_eq_true, if_true, Facts.origins_subdomainWildcard, List.length_cons, List.length_nil]
+                conv => lhs; rw [happ]
+                simp
+              · simp only [beq_self_eq_true, Bool.true_and, decide_eq_true_eq] at hlen
+                omega
+    | domain =>
+      simp only [hpk] at h
+      have hho : hostOnly str Kind.domain = str := by simp [hostOnly]
+      rw [hho] at h
+      cases hf : Lex.fastParseHost str with
+      | none => simp [hf] at h
+      | some hr =>
+        obtain ⟨host, r⟩ := hr
+        simp only [hf] at h
+        simp only [show (Kind.domain == Kind.subdomains) = false from rfl, Bool.false_and, Bool.false_eq_true, if_false] at h
+        cases hip : host.assumeIP with
+        | true =>
+          simp only [hip, if_true] at h
+          cases hv : ipVerdict ext host.value with
+          | bad => simp [hv] at h
+          | prohibited => simp [hv] at h
+          | ok lb =>
+            simp only [hv, Except.ok.injEq, Prod.mk.injEq] at h
+            cases lb <;> simp at h
+        | false =>
+          simp only [hip, Bool.false_eq_true, if_false] at h
+          split at h
+          · cases h
+          · simp at h
+    | nonLoopbackIP => simp [peekKind] at hpk; split at hpk <;> cases hpk
+    | loopbackIP => simp [peekKind] at hpk; split at hpk <;> cases hpk
+  · refine ⟨?_, fun hh => absurd hh hk⟩
+    obtain ⟨host, hf, hval⟩ := parseHostPattern_nonwild h hk
+    rcases hval with ⟨hip, hv⟩ | ⟨hip, hv, _⟩
+    · -- IP: the value parsed as an address
+      unfold parseHostPattern at h
+      simp only [] at h
+      have hpk : peekKind str = .domain := by
+        cases hp : peekKind str with
+        | domain => rfl
+        | subdomains =>
+          exfalso
+          simp only [hp] at h
+          cases hf2 : Lex.fastParseHost (hostOnly str Kind.subdomains) with
+          | none => simp [hf2] at h
+          | some hr =>
+            obtain ⟨host2, r2⟩ := hr
+            simp only [hf2] at h
+            split at h
+            · cases h
+            · split at h
+              · cases h
+              · rename_i hnip
+                have hip2 : host2.assumeIP = false := by simpa using hnip
+                simp only [hip2, Bool.false_eq_true, if_false] at h
+                split at h
+                · cases h
+                · simp only [Except.ok.injEq, Prod.mk.injEq] at h
+                  exact hk h.2.1.symm
+        | nonLoopbackIP => simp [peekKind] at hp; split at hp <;> cases hp
+        | loopbackIP => simp [peekKind] at hp; split at hp <;> cases hp
+      simp only [hpk] at h
+      have hho : hostOnly str Kind.domain = str := by simp [hostOnly]
+      rw [hho, hf] at h
+      simp only [show (Kind.domain == Kind.subdomains) = false from rfl, Bool.false_and, Bool.false_eq_true, if_false, hip, if_true] at h
+      cases hvd : ipVerdict ext host.value with
+      | bad => simp [hvd] at h
+      | prohibited => simp [hvd] at h
+      | ok lb => rw [hv]; exact ipVerdict_nonempty hvd
+    · -- domain: idna accepted the host
+      unfold parseHostPattern at h
+      simp only [] at h
+      cases hp : peekKind str with
+      | domain =>
+        simp only [hp] at h
+        have hho : hostOnly str Kind.domain = str := by simp [hostOnly]
+        rw [hho, hf] at h
+        simp only [show (Kind.domain == Kind.subdomains) = false from rfl, Bool.false_and, Bool.false_eq_true, if_false, hip] at h
+        split at h
+        · cases h
+        · rename_i hid
+          have hne := idnaOK_nonempty (by simpa using hid : idnaOK ext host.value = true)
+          have happ := fastParseHost_append hf (Or.inl hip)
+          rw [hv]
+          intro hnil
+          apply hne
+          have : (str.take host.value.length).length = host.value.length := by
+            rw [List.length_take]; rw [happ]; simp
+          rw [hnil] at this
+          exact List.eq_nil_of_length_eq_zero this.symm
+      | subdomains =>
+        exfalso
+        simp only [hp] at h
+        cases hf2 : Lex.fastParseHost (hostOnly str Kind.subdomains) with
+        | none => simp [hf2] at h
+        | some hr =>
+          obtain ⟨host2, r2⟩ := hr
+          simp only [hf2] at h
+          split at h
+          · cases h
+          · split at h
+            · cases h
+            · rename_i hnip
+              have hip2 : host2.assumeIP = false := by simpa using hnip
+              simp only [hip2, Bool.false_eq_true, if_false] at h
+              split at h
+              · cases h
+              · simp only [Except.ok.injEq, Prod.mk.injEq] at h
+                exact hk h.2.1.symm
+      | nonLoopbackIP => simp [peekKind] at hp; split at hp <;> cases hp
+      | loopbackIP => simp [peekKind] at hp; split at hp <;> cases hp
+
 end Cors
